@@ -1,11 +1,11 @@
 package an
 
 import (
-	"regexp"
 	"fmt"
 	"go/constant"
 	"go/token"
 	"go/types"
+	"regexp"
 	"strings"
 
 	"golang.org/x/tools/go/ssa"
@@ -1096,11 +1096,15 @@ func (p *Prog) predicateHelperFact(a Atom) string {
 }
 
 // foundIndexFacts: the search-then-act idiom
-//     idx := -1; for i, x := range L { if P(x) { idx = i; break } }; if idx < 0 { return … }; act(L[idx])
+//
+//	idx := -1; for i, x := range L { if P(x) { idx = i; break } }; if idx < 0 { return … }; act(L[idx])
+//
 // A guard "idx >= 0" (in any spelling) on a phi whose only other source is the constant -1
 // implies everything that guarded the assignment idx = i, read with idx in place of i.  The
 // implied atoms are added to the guards so that a rule written against
-//     for i, x := range L { if P(x) { act(L[i]) … } }
+//
+//	for i, x := range L { if P(x) { act(L[i]) … } }
+//
 // also recognises the two-phase form.
 func (p *Prog) foundIndexFacts(a Atom) []string {
 	bo, ok := a.Cond.(*ssa.BinOp)
